@@ -986,7 +986,9 @@ theorem pay_runFrame' (p : Prog) (hh : Hist) (s : St) (f : Frame) (hpre : PayPre
     unfold doExclActs; split
     · refine inv_dl hpre (DL.push (by dleq) _) (by hq)
     · rename_i a _
-      exact inv_enqueue a hpre rfl rfl rfl (by hq)
+      split
+      · exact inv_enqueue a hpre rfl rfl rfl (by hq)
+      · exact inv_enqueue a hpre rfl rfl rfl (by hq)
   case topActs t i =>
     unfold doTopActs; split
     · exact inv_dl hpre (DL.push (DL.refl s) _) (by hq)
